@@ -373,9 +373,9 @@ func (n *Node) Submit(tx interfaces.Transaction) error {
 
 // MineOpts modify block assembly (to build invalid blocks on purpose).
 type MineOpts struct {
-	// ExtraReward is added to the miner's coinbase output (≠ 0 ⇒ the block
-	// fails the coinbase reward check when it is connected, but passes the
-	// context-free sanity checks).
+	// ExtraReward is added to the foundation's coinbase output (> 0 ⇒ the block
+	// fails the coinbase amount check when it is connected, but passes the
+	// context-free sanity checks, which only want the foundation share ≥ 30 %).
 	ExtraReward common.Fixed64
 	// Miner is the account that receives the miner output (default 0).
 	Miner int
@@ -422,7 +422,7 @@ func (n *Node) Mine(parent *types.Block, txs []interfaces.Transaction, o ...Mine
 		return nil, err
 	}
 	if opt.ExtraReward != 0 {
-		blk.Transactions[0].Outputs()[1].Value += opt.ExtraReward
+		blk.Transactions[0].Outputs()[0].Value += opt.ExtraReward
 	}
 	hashes := make([]common.Uint256, 0, len(blk.Transactions))
 	for _, tx := range blk.Transactions {
